@@ -256,6 +256,45 @@ def run(ctx):
             elif gth is not None:
                 ctx.inconclusive_case(f"theta FS self-check {eth:.1e}")
 
+        # ------------------------------------------------------------------ QNode level, ONE 0-d scalar argument feeding 1-2 gate parameters
+        # (the classical Jacobian then has shape (n_gate_params,): the hybrid contraction has a separate code path for it)
+        if ci % 5 == 4:
+            r1 = ctx.case_rng(50_000_017 + idx)
+            spec1 = C.random_spec(r1, nw=int(r1.integers(1, 4)), n_in=1, n_gates=int(r1.integers(1, 3)), pool=GEN1 + FIXED, meas_kinds=("expval",), n_meas=1,
+                                  obs_kinds=("pauli",), labels="range", pre=True, const_frac=0.0)
+            x1 = C.random_point(r1, 1)
+            desc1 = C.describe(spec1)
+            R1 = C.Ref(spec1)
+            g1 = None
+            with ctx.guard("reference.scalar"):
+                g1, e1 = D.fubini_study(lambda y: R1.state_from_gate_params(R1.gate_params(y)), x1)
+            std1 = sorted({w for g in spec1["gates"] for w in g["wires"]}) == list(range(spec1["nw"]))
+            if g1 is not None and e1 <= 1e-9:
+                qf1 = C.make_qfunc(qp, spec1, "scalars")
+                if1 = "jax" if (use_jax and ci % 2 == 1) else "autograd"
+                arg1 = (lambda: jnp.array(float(x1[0]))) if if1 == "jax" else (lambda: pnp.array(float(x1[0]), requires_grad=True))
+
+                def as11(fn_):
+                    def fn():
+                        out = np.asarray(fn_(), dtype=float)
+                        return out.reshape(1, 1) if out.size == 1 else out      # () / (1,) / (1,1) are all accepted for one scalar argument
+                    return fn
+                for cfg1, mon1, mk, ref1 in (
+                        (f"qnode-scalar:metric_tensor:{if1}", "mt.full", lambda qn: qp.metric_tensor(qn, approx=None), g1),
+                        (f"qnode-scalar:block-diag:{if1}", "mt.approx", lambda qn: qp.metric_tensor(qn, approx="block-diag"), None),
+                        (f"qnode-scalar:adjoint_metric_tensor:{if1}", "mt.adjoint", (lambda qn: qp.adjoint_metric_tensor(qn)) if std1 else None, g1),
+                        (f"qnode-scalar:quantum_fisher:{if1}", "mt.fisher", (lambda qn: qp.gradients.quantum_fisher(qn)) if std1 else None, 4 * g1)):
+                    if mk is None:
+                        continue
+                    if ref1 is None:
+                        # block-diag of a circuit whose parametrized gates all sit in one layer equals the full tensor; otherwise no claim here
+                        if sum(1 for g in spec1["gates"] if any(e[0] != "c" for e in g["args"])) != 1:
+                            continue
+                        ref1 = g1
+                    judge(mon1, cfg1, as11(lambda mk=mk: mk(qp.QNode(qf1, dev, interface=if1))(arg1())), ref1, spec1, desc1, x1, {"interface": if1, "argument": "0-d scalar"})
+            elif g1 is not None:
+                ctx.inconclusive_case(f"scalar FS self-check {e1:.1e}")
+
         # ------------------------------------------------------------------ QNode level (arguments x, classical pre-processing)
         gx = None
         with ctx.guard("reference.x"):
